@@ -32,7 +32,10 @@ def span_coverage_of(reads, positions=None):
     return cov
 
 
-def run_phase(main_vcf, phase_vcfs=(), ped=None, bams=(), reference=False, lists=(), keep_dir=False, coverage_guard=None, stale_lists=False, **opts):
+CLI_FLAGS = {"ped": "--ped", "tag": "--tag", "recombrate": "--recombrate", "recombination_list_filename": "--recombination-list"}
+
+
+def run_phase(main_vcf, phase_vcfs=(), ped=None, bams=(), reference=False, lists=(), keep_dir=False, coverage_guard=None, stale_lists=False, via_cli=False, **opts):
     """Run run_whatshap on text inputs. Returns dict(out, read_list, gtchange_list, recomb_list, solver_calls, selections, error)."""
     import whatshap.cli.phase as P
     logging.disable(logging.CRITICAL)
@@ -120,7 +123,23 @@ def run_phase(main_vcf, phase_vcfs=(), ped=None, bams=(), reference=False, lists
         P.PhasedInputReader.read = spy_read
         try:
             with contextlib.redirect_stdout(io.StringIO()), contextlib.redirect_stderr(io.StringIO()):
-                P.run_whatshap(inputs, main, reference=reference, output=out, write_command_line_header=False, **kw)
+                if via_cli and reference is False and all(k in CLI_FLAGS for k in kw):
+                    # through the real command-line parser (whatshap.__main__.main without the logging set-up): every option that is not given takes the
+                    # default of add_arguments(), not the default of run_whatshap()'s signature
+                    import argparse
+                    parser = argparse.ArgumentParser(prog="whatshap phase")
+                    P.add_arguments(parser)
+                    argv = ["-o", out, "--no-reference"]
+                    for k, v in kw.items():
+                        argv += [CLI_FLAGS[k], str(v)]
+                    try:
+                        args = parser.parse_args(argv + [main] + inputs)
+                        P.validate(args, parser)
+                    except SystemExit as e:
+                        raise RuntimeError("the command line %r was rejected (exit %s)" % (argv, e.code))
+                    P.main(args)
+                else:
+                    P.run_whatshap(inputs, main, reference=reference, output=out, write_command_line_header=False, **kw)
         except BaseException as e:   # CommandLineError, AssertionError, ...
             if isinstance(e, (KeyboardInterrupt, SystemExit)):
                 raise
